@@ -55,6 +55,15 @@ theorem step_neLe (s : St) (op : Op) (hs : Shape s) (h : s.numExpected ≤ 1) : 
   | peekFail =>
     simp only [step]
     split <;> first | exact h | (simp only []; omega)
+  | peerAnswer =>
+    simp only [step]
+    split <;> exact h
+  | peerExtra =>
+    simp only [step]
+    split <;> exact h
+  | peekIdle =>
+    simp only [step]
+    split <;> first | exact h | (simp only []; omega)
 
 theorem step_core (s : St) (op : Op) (hs : Shape s) (hp : PairsOK s) :
     Shape (step s op) ∧ PairsOK (step s op) := by
@@ -74,7 +83,7 @@ theorem step_core (s : St) (op : Op) (hs : Shape s) (hp : PairsOK s) :
   | readHead hasBody keep wrote accept =>
     simp only [step]
     split
-    · next r rest hph hrq =>
+    · next r rest l wrest hph hrq hwire =>
       split
       · exact ⟨hs, hp⟩
       · -- only the second shape has a pending request while peeking
@@ -121,6 +130,161 @@ theorem step_core (s : St) (op : Op) (hs : Shape s) (hp : PairsOK s) :
     split
     · exact ⟨Or.inr (Or.inr (Or.inr ⟨rfl, rfl⟩)), hp⟩
     · exact ⟨hs, hp⟩
+  | peerAnswer =>
+    simp only [step]
+    split
+    · exact ⟨hs, hp⟩
+    · exact ⟨hs, hp⟩
+  | peerExtra =>
+    simp only [step]
+    split
+    · exact ⟨hs, hp⟩
+    · exact ⟨hs, hp⟩
+  | peekIdle =>
+    simp only [step]
+    split
+    · exact ⟨Or.inr (Or.inr (Or.inr ⟨rfl, rfl⟩)), hp⟩
+    · exact ⟨hs, hp⟩
+
+/-! ### whose response: the labelled wire -/
+
+/-- As long as the connection is not `tainted`, the unread part of the byte stream is either
+unsolicited bytes only (nothing expected) or exactly the answer to the one request in flight. -/
+def Own (s : St) : Prop :=
+  s.tainted = false →
+    (∀ p ∈ s.got, p.2 = some p.1) ∧
+    (s.phase = .closed ∨
+     (s.numExpected = 0 ∧ s.answered = s.started.length ∧ ∀ l ∈ s.wire, l = none) ∨
+     (s.numExpected = 1 ∧ s.phase = .peeking ∧ ∃ r pre, s.started = pre ++ [r] ∧
+        ((s.wire = [] ∧ s.answered = pre.length) ∨ (s.wire = [some r] ∧ s.answered = pre.length + 1))))
+
+theorem Own_init : Own {} := by
+  intro _
+  exact ⟨by intro p hp; simp at hp, Or.inr (Or.inl ⟨rfl, rfl, by intro l hl; simp at hl⟩)⟩
+
+theorem step_own (s : St) (op : Op) (hs : Shape s) (ho : Own s) : Own (step s op) := by
+  cases op with
+  | start r =>
+    simp only [step]
+    split
+    · next hc =>
+      simp only [Bool.and_eq_true, beq_iff_eq] at hc
+      intro ht
+      simp only [Bool.or_eq_false_iff, Bool.not_eq_false', List.isEmpty_iff] at ht
+      obtain ⟨hgot, hw⟩ := ho ht.1
+      refine ⟨hgot, ?_⟩
+      rcases hs with ⟨_, _, _, _, _, h6⟩ | ⟨h1, _⟩ | ⟨h1, _⟩ | ⟨h1, _⟩
+      · rcases hw with hw | ⟨_, ha, _⟩ | ⟨hn, _⟩
+        · rw [hc.2] at hw; cases hw
+        · exact Or.inr (Or.inr ⟨by simp [h6], hc.2, r, s.started, rfl, Or.inl ⟨ht.2, ha⟩⟩)
+        · omega
+      · rw [h1] at hc; simp at hc
+      · rw [h1] at hc; simp at hc
+      · rw [h1] at hc; simp at hc
+    · exact ho
+  | readHead hasBody keep wrote accept =>
+    simp only [step]
+    split
+    · next r rest l wrest hph hrq hwire =>
+      split
+      · exact ho
+      · next hne =>
+        -- the state after the common update, before the phase / avail / log changes
+        have key : s.tainted = false →
+            (∀ p ∈ (r, l) :: s.got, p.2 = some p.1) ∧
+            (s.numExpected - 1 = 0 ∧ s.answered = s.started.length ∧ ∀ x ∈ wrest, x = none) := by
+          intro ht
+          obtain ⟨hgot, hw⟩ := ho ht
+          rcases hw with hw | ⟨hn, _⟩ | ⟨hn, _, r', pre, hst, hwr⟩
+          · rw [hph] at hw; cases hw
+          · exact absurd hn hne
+          · rcases hwr with ⟨hw0, _⟩ | ⟨hw1, ha⟩
+            · rw [hw0] at hwire; cases hwire
+            · rw [hw1] at hwire
+              simp only [List.cons.injEq] at hwire
+              obtain ⟨rfl, rfl⟩ := hwire
+              -- the request at the head of reqch is r'
+              have hr : r = r' := by
+                rcases hs with ⟨_, _, h3, _⟩ | ⟨_, _, _, _, r2, pre2, h5, h6, _⟩ | ⟨_, h2, _⟩ | ⟨_, h2⟩
+                · rw [h3] at hrq; cases hrq
+                · rw [h5] at hrq
+                  simp only [List.cons.injEq] at hrq
+                  rw [h6] at hst
+                  have := List.append_inj_right' hst (by simp)
+                  simp only [List.cons.injEq, and_true] at this
+                  rw [← hrq.1, this]
+                · rw [h2] at hrq; cases hrq
+                · rw [h2] at hph; cases hph
+              subst hr
+              refine ⟨?_, by omega, by rw [ha, hst]; simp, by intro x hx; simp at hx⟩
+              intro p hp
+              rcases List.mem_cons.mp hp with rfl | hp
+              · rfl
+              · exact hgot p hp
+        (repeat' split) <;>
+          (intro ht; obtain ⟨h1, h2, h3, h4⟩ := key ht; exact ⟨h1, Or.inr (Or.inl ⟨h2, h3, h4⟩)⟩)
+    · exact ho
+  | bodyDone eof wrote accept =>
+    simp only [step]
+    split
+    · next r keep hph =>
+      have key : s.tainted = false → (∀ p ∈ s.got, p.2 = some p.1) ∧
+          (s.numExpected = 0 ∧ s.answered = s.started.length ∧ ∀ l ∈ s.wire, l = none) := by
+        intro ht
+        obtain ⟨hgot, hw⟩ := ho ht
+        rcases hw with hw | hw | ⟨_, hw, _⟩
+        · rw [hph] at hw; cases hw
+        · exact ⟨hgot, hw⟩
+        · rw [hph] at hw; cases hw
+      (repeat' split) <;>
+        (intro ht; obtain ⟨h1, h2⟩ := key ht; exact ⟨h1, Or.inr (Or.inl h2)⟩)
+    · exact ho
+  | peekFail =>
+    simp only [step]
+    split
+    · intro ht; exact ⟨(ho ht).1, Or.inl rfl⟩
+    · exact ho
+  | peekIdle =>
+    simp only [step]
+    split
+    · intro ht; exact ⟨(ho ht).1, Or.inl rfl⟩
+    · exact ho
+  | peerAnswer =>
+    simp only [step]
+    split
+    · next r hr =>
+      intro ht
+      obtain ⟨hgot, hw⟩ := ho ht
+      refine ⟨hgot, ?_⟩
+      rcases hw with hw | ⟨_, ha, _⟩ | ⟨hn, hp, r', pre, hst, hwr⟩
+      · exact Or.inl hw
+      · rw [ha, List.getElem?_eq_none (Nat.le_refl _)] at hr; cases hr
+      · rcases hwr with ⟨hw0, ha⟩ | ⟨_, ha⟩
+        · rw [ha, hst] at hr
+          simp at hr
+          subst hr
+          exact Or.inr (Or.inr ⟨hn, hp, r', pre, hst, Or.inr ⟨by simp [hw0], by simp [ha]⟩⟩)
+        · rw [ha, hst, List.getElem?_eq_none (by simp)] at hr; cases hr
+    · exact ho
+  | peerExtra =>
+    simp only [step]
+    split
+    · exact ho
+    · next hcl =>
+      intro ht
+      simp only [Bool.or_eq_false_iff, Bool.and_eq_false_iff] at ht
+      obtain ⟨hgot, hw⟩ := ho ht.1
+      refine ⟨hgot, ?_⟩
+      rcases hw with hw | ⟨hn, ha, hall⟩ | ⟨hn, hp, _⟩
+      · rw [hw] at hcl; simp at hcl
+      · refine Or.inr (Or.inl ⟨hn, ha, ?_⟩)
+        intro l hl
+        rcases List.mem_append.mp hl with hl | hl
+        · exact hall l hl
+        · simpa using hl
+      · rcases ht.2 with h | h
+        · rw [hp] at h; simp at h
+        · rw [hn] at h; simp at h
 
 theorem PInv_step (s : St) (op : Op) (h : PInv s) : PInv (step s op) :=
   ⟨(step_core s op h.shape h.pairs).1, (step_core s op h.shape h.pairs).2, step_neLe s op h.shape h.neLe⟩
@@ -129,5 +293,24 @@ theorem PInv_run (s : St) (ops : List Op) (h : PInv s) : PInv (run s ops) := by
   induction ops generalizing s with
   | nil => exact h
   | cons op ops ih => exact ih _ (PInv_step s op h)
+
+theorem Own_run (s : St) (ops : List Op) (h : PInv s) (ho : Own s) : Own (run s ops) := by
+  induction ops generalizing s with
+  | nil => exact ho
+  | cons op ops ih => exact ih _ (PInv_step s op h) (step_own s op h.shape ho)
+
+/-- A closed connection stays closed and delivers nothing more. -/
+theorem closed_step (s : St) (op : Op) (h : s.phase = .closed) :
+    (step s op).phase = .closed ∧ (step s op).got = s.got ∧ (step s op).started = s.started := by
+  cases op <;> simp only [step, h] <;> (repeat' split) <;> simp_all
+
+theorem closed_run (s : St) (ops : List Op) (h : s.phase = .closed) :
+    (run s ops).phase = .closed ∧ (run s ops).got = s.got ∧ (run s ops).started = s.started := by
+  induction ops generalizing s with
+  | nil => exact ⟨h, rfl, rfl⟩
+  | cons op ops ih =>
+    obtain ⟨h1, h2, h3⟩ := closed_step s op h
+    obtain ⟨i1, i2, i3⟩ := ih _ h1
+    exact ⟨i1, by rw [← h2]; exact i2, by rw [← h3]; exact i3⟩
 
 end Req.Lemmas.C09Pairing
